@@ -90,6 +90,7 @@ macro_rules! systems {
             "mpmc.capscript.grow" => sys_capscript::Grow,
             "mpmc.bigpayload" => sys_capscript::BigPayload,
             "handles.clonefrom" => sys_capscript::HandleScript,
+            "panicwaker" => sys_capscript::PanicWaker,
             "ds.heapscript" => sys_ds::HeapScript,
             "ringscript.arr65536" => sys_ds::BigRing,
             "mutex.local" => sys_mutex::Sys<NL>,
